@@ -26,14 +26,18 @@ PURE_CALLS = {'isdigit', 'isupper', 'islower', 'isalpha', 'isalnum', 'isxdigit',
 NONNUL_CLASS = {'isdigit', 'isupper', 'islower', 'isalpha', 'isalnum', 'isxdigit', 'ispunct', 'isprint', 'isgraph'}
 
 
-def unit(repo):
+def unit(repo, cse=False):
     path = os.path.join(repo, SRC)
     if not os.path.exists(path):
         raise AnalysisBroken('%s is gone' % SRC)
     # helper functions a refactoring may introduce (a shared fill/emit loop, a digit-to-character helper, a flag
     # classifier ...) are folded into their callers; the four routines the rules anchor on stay functions
     from irlib import keep_all_but_new_helpers
+    # early-cse merges repeated loads of the same character (`if (*p == '-') .. else if (*p == '+') ..`), after which
+    # simplifycfg turns such a chain of equality tests into the switch the parser rules work on
     mod = compile_ir(path, repo, ['-D__NO_CTYPE'],
+                     passes='mem2reg,instsimplify,early-cse,simplifycfg' if cse else 'mem2reg,instsimplify,simplifycfg',
+                     out_name='printf_impl_cse' if cse else None,
                      inline=keep_all_but_new_helpers(('print_buf', 'print_s', 'print_i', 'print_f')))
     for name, n in SIG.items():
         f = mod.fn(name)
